@@ -23,7 +23,7 @@ RULE = ('cases: seeded histories of <=60 ops (join, leave, re-join, attach, deta
         'type, a re-join, and an empty-listing answer; distinct by (class, op trace) signature.')
 ASSUMPTIONS = ['component classes use identity equality; each component instance belongs to one agent',
                'PositionComponent managed by spatial worlds is outside the claim', 'F1/F2/F3/F6 are known findings (not repaired)']
-FLOORS = {'quick': {'listing_comparisons': 20000, 'classA_histories': 600, 'joins': 3000, 'leaves': 1500, 'rejoins': 500,
+FLOORS = {'quick': {'listing_comparisons': 20000, 'classA_histories': 400, 'joins': 3000, 'leaves': 1500, 'rejoins': 500,
                     'empty_answers': 3000, 'leave_shared_type': 500, 'strict_keyerror': 1000, 'migrations': 300,
                     'reach:Core.SystemManager.register_component': 2000, 'reach:Core.SystemManager.deregister_component': 1000},
           'thorough': {'listing_comparisons': 1000000, 'classA_histories': 40000}}
